@@ -1,7 +1,7 @@
 import CkbVerif.Driver.Util
 import CkbVerif.Model.Pool
 
-/-! Line-protocol driver for C11 (protocol: harness/hnode/src/c11.rs). `ckbmodel C11 [fixF2] [fixPanic] [fixF3] [fixMid]`. -/
+/-! Line-protocol driver for C11 (protocol: harness/hnode/src/c11.rs). `ckbmodel C11 [fixF2] [fixPanic] [fixF3] [fixMid] [preF33]` (`preF33` = `check_and_record_ancestors` as it was before /repo 10e306f). -/
 namespace CkbVerif.Driver.C11
 open CkbVerif.Driver CkbVerif.Pool
 
@@ -95,12 +95,12 @@ def findTx (s : St) (id : Nat) : Option Tx := s.txs.find? (·.id = id)
 
 def sameSet (a b : List Nat) : Bool := sortNat (dedup a) == sortNat (dedup b)
 
-def stepWith (fix fixP fix3 fixM : Bool) (s : St) (ts : List String) : St × String :=
+def stepWith (fix fixP fix3 fixM fix33 : Bool) (s : St) (ts : List String) : St × String :=
   match ts with
   | ["cfg", a, b, c, d, e, ch] =>
     match parseNats? [a, b, c, d, e], parseNatList? ch with
     | some [a, b, c, d, e], some ch =>
-      ({ txs := [], pool := { cfg := { maxAnc := a, maxSize := b, minFeeRate := c, minRbfRate := d, expiry := e, fixF2 := fix, fixPanic := fixP, fixF3 := fix3, fixMid := fixM }, chain := ch } }, "ok")
+      ({ txs := [], pool := { cfg := { maxAnc := a, maxSize := b, minFeeRate := c, minRbfRate := d, expiry := e, fixF2 := fix, fixPanic := fixP, fixF3 := fix3, fixMid := fixM, fixF33 := fix33 }, chain := ch } }, "ok")
     | _, _ => (s, "bad-op")
   | ["tx", id, ins, deps, hd, nout, size, cyc, fee] =>
     match parseNats? [id, nout, size, cyc, fee], parsePts? ins, parsePts? deps, parseNatList? hd with
@@ -201,6 +201,6 @@ def stepWith (fix fixP fix3 fixM : Bool) (s : St) (ts : List String) : St × Str
   | _ => (s, "bad-op")
 
 def main (args : List String) : IO UInt32 :=
-  runLines ({} : St) (stepWith (args.contains "fixF2") (args.contains "fixPanic") (args.contains "fixF3") (args.contains "fixMid"))
+  runLines ({} : St) (stepWith (args.contains "fixF2") (args.contains "fixPanic") (args.contains "fixF3") (args.contains "fixMid") (!args.contains "preF33"))
 
 end CkbVerif.Driver.C11
